@@ -340,6 +340,203 @@ theorem loop_done (i : Nat) (hs : List Handler) (st : St) (h : ¬ st.ctx.index <
   | nil => rw [loop]; simp [h]
   | cons a rest => rw [loop]; simp [h]
 
+/-! ### the model never leaves its fragment for chains of at most 64 handlers
+
+  `Stop.off` is produced only when the cursor is BEHIND the list position.  With at most 64 handlers the
+  cursor never decreases (`Abort` sets it to 63, which is then ≥ every position) — so `off` is unreachable. -/
+
+/-- what a run from `st` to `o` does to the cursor and the handler list -/
+structure Fwd (st : St) (o : Out) : Prop where
+  noOff : o.2 ≠ some .off
+  mono : st.ctx.index ≤ o.1.ctx.index
+  le63 : o.1.ctx.index ≤ 63
+  handlers : o.1.ctx.handlers = st.ctx.handlers
+
+theorem Fwd.refl (st : St) (h : st.ctx.index ≤ 63) : Fwd st (st, none) :=
+  ⟨by simp, Int.le_refl _, h, rfl⟩
+
+theorem Fwd.bind {st st1 : St} {o : Out} (h1 : Fwd st (st1, none)) (h2 : Fwd st1 o) : Fwd st o :=
+  ⟨h2.noOff, Int.le_trans h1.mono h2.mono, h2.le63, h2.handlers.trans h1.handlers⟩
+
+theorem ensureWH_index (st : St) : (ensureWH st).ctx.index = st.ctx.index ∧ (ensureWH st).ctx.handlers = st.ctx.handlers := by
+  unfold ensureWH; dsimp only; split <;> exact ⟨rfl, rfl⟩
+
+theorem ownWriteHeader_index (st : St) (c : Int) :
+    (ownWriteHeader st c).ctx.index = st.ctx.index ∧ (ownWriteHeader st c).ctx.handlers = st.ctx.handlers := by
+  unfold ownWriteHeader; dsimp only; split <;> exact ⟨rfl, rfl⟩
+
+theorem ownWrite_index (st : St) (b : Bytes) :
+    (ownWrite st b).ctx.index = st.ctx.index ∧ (ownWrite st b).ctx.handlers = st.ctx.handlers := by
+  simp [ownWrite, (ensureWH_index st).1, (ensureWH_index st).2]
+
+theorem Fwd.same {st st' : St} {x : Option Stop} (hx : x ≠ some .off) (h : st.ctx.index ≤ 63)
+    (hi : st'.ctx.index = st.ctx.index) (hh : st'.ctx.handlers = st.ctx.handlers) : Fwd st (st', x) :=
+  ⟨hx, by rw [hi]; exact Int.le_refl _, by rw [hi]; exact h, hh⟩
+
+theorem respWriteHeader_fwd (p : Pos) (st : St) (code : Int) (h : st.ctx.index ≤ 63) :
+    Fwd st (liftP (respWriteHeader p st code)) := by
+  unfold respWriteHeader liftP
+  split
+  · exact Fwd.same (by simp) h (ownWriteHeader_index st code).1 (ownWriteHeader_index st code).2
+  · exact Fwd.same (by simp) h rfl rfl
+  · exact Fwd.same (by simp) h rfl rfl
+
+theorem stepS_fwd (p : Pos) (a : SAct) (st : St) (h : st.ctx.index ≤ 63) : Fwd st (liftP (stepS p a st)) := by
+  cases a with
+  | emit t => exact Fwd.same (by simp [stepS]) h rfl rfl
+  | panic v => exact Fwd.same (by simp [stepS]) h rfl rfl
+  | set k v => exact Fwd.same (by simp [stepS]) h rfl rfl
+  | addError e => exact Fwd.same (by simp [stepS]) h rfl rfl
+  | setParam k v =>
+    simp only [stepS, liftP]
+    split
+    · exact Fwd.same (by simp) h rfl rfl
+    · exact Fwd.same (by simp) h rfl rfl
+  | abort =>
+    exact ⟨by simp [liftP, stepS], by simpa [liftP, stepS, abortIndex, Facts.abortIndex] using h,
+      by simp [liftP, stepS, abortIndex, Facts.abortIndex], rfl⟩
+  | setStatus c => exact Fwd.same (by simp [stepS]) h (ownWriteHeader_index st c).1 (ownWriteHeader_index st c).2
+  | write b =>
+    simp only [stepS, liftP]
+    split
+    · exact Fwd.same (by simp) h (ownWrite_index st b).1 (ownWrite_index st b).2
+    · exact Fwd.same (by simp) h rfl rfl
+    · exact Fwd.same (by simp) h rfl rfl
+  | respWH c => exact respWriteHeader_fwd p st c h
+  | replaceResp id => exact Fwd.same (by simp [stepS]) h rfl rfl
+  | replaceReq id => exact Fwd.same (by simp [stepS]) h rfl rfl
+  | get k => exact Fwd.same (by simp [stepS]) h rfl rfl
+  | dump => exact Fwd.same (by simp [stepS]) h rfl rfl
+
+theorem runS_fwd (p : Pos) (l : List SAct) (st : St) (h : st.ctx.index ≤ 63) : Fwd st (liftP (runS p l st)) := by
+  induction l generalizing st with
+  | nil => exact Fwd.refl st h
+  | cons a rest ih =>
+    have h1 := stepS_fwd p a st h
+    rw [runS]
+    generalize stepS p a st = r at h1
+    obtain ⟨s, x⟩ := r
+    cases x with
+    | none => exact Fwd.bind h1 (ih s h1.le63)
+    | some v => exact h1
+
+theorem loop_fwd (hs : List Handler) : ∀ (i : Nat) (st : St),
+    i + hs.length = st.ctx.handlers.length → st.ctx.handlers.length ≤ 64 →
+    (i : Int) ≤ st.ctx.index + 1 → st.ctx.index ≤ 63 → Fwd st (loop i hs st) := by
+  induction hs with
+  | nil =>
+    intro i st hlen _ hpos h63
+    rw [loop]
+    have : ¬ st.ctx.index < st.last := by
+      simp only [St.last]
+      simp only [List.length_nil, Nat.add_zero] at hlen
+      omega
+    simp only [this, if_false]
+    exact Fwd.refl st h63
+  | cons h rest ih =>
+    intro i st hlen h64 hpos h63
+    have hlen' : (i + 1) + rest.length = st.ctx.handlers.length := by
+      simp only [List.length_cons] at hlen; omega
+    rw [loop]
+    split
+    · rename_i hlt
+      have hidx63 : st.ctx.index + 1 ≤ 63 := by
+        simp only [St.last] at hlt; omega
+      split
+      · rename_i heq
+        -- the state in which handler `i` runs
+        have hst1 : Fwd st ({ st with ctx := { st.ctx with index := st.ctx.index + 1 } }, none) :=
+          ⟨by simp, by simp; omega, hidx63, rfl⟩
+        have hi1 : ((i : Nat) : Int) ≤ ({ st with ctx := { st.ctx with index := st.ctx.index + 1 } } : St).ctx.index := by
+          simp only; omega
+        have hk : ∀ s : St, s.ctx.handlers = st.ctx.handlers → s.ctx.index ≤ 63 → (i : Int) ≤ s.ctx.index →
+            Fwd s (loop (i + 1) rest s) := by
+          intro s hh h1 h2
+          exact ih (i + 1) s (by rw [hh]; exact hlen') (by rw [hh]; exact h64) (by push_cast; omega) h1
+        cases h with
+        | acts l =>
+          simp only
+          refine Fwd.bind hst1 ?_
+          have hev : Fwd ({ st with ctx := { st.ctx with index := st.ctx.index + 1 } } : St)
+              ((({ st with ctx := { st.ctx with index := st.ctx.index + 1 } } : St).ev (.enter i)), none) :=
+            Fwd.same (by simp) hidx63 rfl rfl
+          refine Fwd.bind hev ?_
+          -- `runActs` with `k = loop (i+1) rest`; the handler list is unchanged along the way
+          have hra : ∀ (l : List Act) (s : St), s.ctx.handlers = st.ctx.handlers → s.ctx.index ≤ 63 →
+              (i : Int) ≤ s.ctx.index → Fwd s (runActs (loop (i + 1) rest) i l s) := by
+            intro l
+            induction l with
+            | nil => intro s _ h1 _; exact Fwd.refl s h1
+            | cons a tl ihl =>
+              intro s hh h1 h2
+              cases a with
+              | next =>
+                have hx := hk s hh h1 h2
+                rw [runActs]
+                generalize loop (i + 1) rest s = r at hx
+                obtain ⟨s', x⟩ := r
+                cases x with
+                | none => exact Fwd.bind hx (ihl s' (hx.handlers.trans hh) hx.le63 (Int.le_trans h2 hx.mono))
+                | some v => exact hx
+              | s a =>
+                have hx := stepS_fwd (.h i) a s h1
+                rw [runActs]
+                generalize stepS (.h i) a s = r at hx
+                obtain ⟨s', x⟩ := r
+                cases x with
+                | none => exact Fwd.bind hx (ihl s' (hx.handlers.trans hh) hx.le63 (Int.le_trans h2 hx.mono))
+                | some v => exact hx
+          have hx := hra l ((({ st with ctx := { st.ctx with index := st.ctx.index + 1 } } : St).ev (.enter i))) rfl hidx63 hi1
+          generalize runActs (loop (i + 1) rest) i l _ = r at hx
+          obtain ⟨s', x⟩ := r
+          cases x with
+          | some v => exact hx
+          | none =>
+            refine Fwd.bind hx ?_
+            have hl : Fwd s' (s'.ev (.leave i), none) := Fwd.same (by simp) hx.le63 rfl rfl
+            refine Fwd.bind hl ?_
+            exact hk (s'.ev (.leave i)) hx.handlers hx.le63 (Int.le_trans hi1 hx.mono)
+        | builtin l =>
+          simp only
+          refine Fwd.bind hst1 ?_
+          have hx := runS_fwd (.h i) l { st with ctx := { st.ctx with index := st.ctx.index + 1 } } hidx63
+          generalize runS (.h i) l { st with ctx := { st.ctx with index := st.ctx.index + 1 } } = r at hx
+          obtain ⟨s', x⟩ := r
+          cases x with
+          | some v => exact hx
+          | none => exact Fwd.bind hx (hk s' hx.handlers hx.le63 (Int.le_trans hi1 hx.mono))
+        | panicsHandler =>
+          simp only
+          refine Fwd.bind hst1 ?_
+          have hx := hk { st with ctx := { st.ctx with index := st.ctx.index + 1 } } rfl hidx63 hi1
+          generalize loop (i + 1) rest { st with ctx := { st.ctx with index := st.ctx.index + 1 } } = r at hx
+          obtain ⟨s', x⟩ := r
+          cases x with
+          | none => exact Fwd.bind hx (hk s' hx.handlers hx.le63 (Int.le_trans hi1 hx.mono))
+          | some x =>
+            cases x with
+            | off => exact absurd rfl hx.noOff
+            | panic v =>
+              have hx' : Fwd ({ st with ctx := { st.ctx with index := st.ctx.index + 1 } } : St) (s', none) :=
+                ⟨by simp, hx.mono, hx.le63, hx.handlers⟩
+              refine Fwd.bind hx' ?_
+              have h2 := respWriteHeader_fwd (.h i) s' 500 hx.le63
+              simp only
+              generalize respWriteHeader (.h i) s' 500 = r2 at h2
+              obtain ⟨s3, x3⟩ := r2
+              cases x3 with
+              | some v3 => exact h2
+              | none =>
+                simp only [liftP] at h2
+                exact Fwd.bind h2 (hk s3 (h2.handlers.trans hx.handlers) h2.le63
+                  (Int.le_trans (Int.le_trans hi1 hx.mono) h2.mono))
+      · split
+        · rename_i hgt
+          exact ih (i + 1) st hlen' h64 (by push_cast; omega) h63
+        · rename_i hne hgt
+          omega
+    · exact Fwd.refl st h63
+
 /-! ### maps, commit -/
 
 theorem mapGet_mapSet_same {α : Type} (m : List (Bytes × α)) (k : Bytes) (v : α) :
